@@ -331,9 +331,7 @@ def normalise(case: dict) -> dict:
                 elif n['lk'] == 'dangling' and r.get('follow') is not False:
                     del r['tree'][p]
                     excl.append('install_subdir: dangling symlink with follow_symlinks true/default (undefined)')
-        if r.get('mode') and any(x is not True and isinstance(x, int) and x == 1 for x in r['mode'][1:]):
-            r['mode'] = [r['mode'][0]] + [2 if (isinstance(x, int) and x == 1) else x for x in r['mode'][1:]]
-            excl.append('install_mode with uid/gid 1 (rejected at configure time: known finding, probed separately): replaced by 2')
+        # (install_mode with uid/gid 1 was rejected at configure time: fixed in /repo, generated again)
         if r['k'] == 'headers' and r.get('install_dir') and r.get('preserve_path'):
             r['preserve_path'] = False
             excl.append('install_headers: preserve_path together with install_dir (known finding, probed separately)')
@@ -1057,6 +1055,7 @@ class Judge:
                 if os.path.islink(p) and ((not os.path.exists(p) and not o.get('dry')) or os.path.isdir(p)):
                     if self.ev is not None:
                         self.ev.exclude('re-install over an installed symlink copy that dangles or points to a directory (known findings, probed separately)')
+                    self.stop = True    # this install is not run, so the model no longer knows the tree / log: the history ends here
                     return None
         before_in, before_out = self.split(self.snap())
         argv, cwd, env = self.install_argv(o)
@@ -1175,6 +1174,8 @@ class Judge:
                 self.step_tamper(o)
             if f:
                 return f
+            if getattr(self, 'stop', False):
+                break
         return None
 
 
@@ -1249,6 +1250,9 @@ def minimise(case: dict, sig: str, work: str, budget: int = 24) -> dict:
     def fails(c: dict) -> bool:
         if left[0] <= 0:
             return False
+        import copy
+        if normalise(copy.deepcopy(c)) != c:
+            return False       # the candidate left the generated domain (an excluded region): not a valid reduction
         left[0] -= 1
         try:
             f = run_case(c, work, 'fork', None)
